@@ -1,10 +1,13 @@
-from lv.checks import history, labrun, save
+from lv.checks import history, labrun, save, values
 
 REGISTRY = {}
-REPLAYERS = {'save-fault': save.replay, 'history': history.replay}
+REPLAYERS = {'save-fault': save.replay, 'history': history.replay, 'value-case': values.replay}
 for _p in labrun.SPECS:
     REGISTRY[_p] = labrun.run
 REGISTRY['C12'] = save.run
 REGISTRY['C13'] = save.run
 REGISTRY['C06'] = history.run
 REGISTRY['C08'] = history.run
+REGISTRY['C07'] = values.run
+REGISTRY['C09'] = values.run
+REGISTRY['C15'] = values.run
